@@ -279,7 +279,7 @@ impl Prop for GraphProp {
             for k in 0..n_samples {
                 let r = mix_bits(crate::wctx::mix(ctx.seed, if which == Which::C03 { "C03-4" } else { "C05-4" }, ctx.shard, k));
                 let mask = r & 0xffff;
-                let g = graph_from_mask(4, mask, r >> 16, 0, &[]);
+                let g = graph_from_mask(4, mask, r >> 16, mix_bits(r) & !0x3ff, &[]);
                 let sets = subsets(4);
                 let set = &sets[(r >> 40) as usize % sets.len()];
                 let inputs = if which == Which::C03 && r >> 51 & 1 == 1 {
@@ -335,7 +335,7 @@ impl Prop for GraphProp {
                     }
                 }
                 let bits = mix_bits(r);
-                let mut g = graph_from_mask(n, mask, bits, 0, &[]);
+                let mut g = graph_from_mask(n, mask, bits, bits >> 20 & !0x3ff, &[]);
                 g.no_solo = true;
                 let base = GraphCase {
                     graph: g.clone(),
